@@ -92,21 +92,21 @@ var universe = func() []baseURL {
 		"http://example.com/a%252Fb.crl", "http://example.com/ca%2Ecrl", "http://example.com/ca%2ecrl", "http%3A%2F%2Fexample.com%2Fca.crl",
 		"http:%2F%2Fexample.com%2Fca.crl", "http://example.com/ca.crl%00", "http://example.com/ca.crl%20")
 	add("unicode", "near",
-		"http://ex\u0430mple.com/ca.crl",       // Cyrillic a
-		"http://example.com/c\u0430.crl",       // Cyrillic a in the path
-		"http://example\uff0ecom/ca.crl",       // fullwidth full stop
-		"http://example.com/ca\uff0fcrl",       // fullwidth solidus
-		"http://example.com/a\u2215b.crl",      // division slash (cf. a/b.crl)
-		"http://example.com/a\u2044b.crl",      // fraction slash
-		"http://example.com/caf\u00e9.crl",     // NFC
-		"http://example.com/cafe\u0301.crl",    // NFD
-		"http://example.com/ca.crl\u200b",      // zero width space
-		"http://example.com/ca.crl\ufffd",      // replacement character
-		"http://example.com/ca.crl\xff",        // invalid UTF-8 (becomes U+FFFD if sanitised)
-		"http://example.com/ca.crl\xfe",        // another invalid byte
-		"http://\u212aexample.com/ca.crl",      // Kelvin sign (folds to k)
+		"http://ex\u0430mple.com/ca.crl",    // Cyrillic a
+		"http://example.com/c\u0430.crl",    // Cyrillic a in the path
+		"http://example\uff0ecom/ca.crl",    // fullwidth full stop
+		"http://example.com/ca\uff0fcrl",    // fullwidth solidus
+		"http://example.com/a\u2215b.crl",   // division slash (cf. a/b.crl)
+		"http://example.com/a\u2044b.crl",   // fraction slash
+		"http://example.com/caf\u00e9.crl",  // NFC
+		"http://example.com/cafe\u0301.crl", // NFD
+		"http://example.com/ca.crl\u200b",   // zero width space
+		"http://example.com/ca.crl\ufffd",   // replacement character
+		"http://example.com/ca.crl\xff",     // invalid UTF-8 (becomes U+FFFD if sanitised)
+		"http://example.com/ca.crl\xfe",     // another invalid byte
+		"http://\u212aexample.com/ca.crl",   // Kelvin sign (folds to k)
 		"http://Kexample.com/ca.crl", "http://kexample.com/ca.crl",
-		"http://example.com/\u0441a.crl",       // Cyrillic es
+		"http://example.com/\u0441a.crl", // Cyrillic es
 		"http://ex\u0430mple.com/c\u0430.crl")
 	// path traversal: never more than three ".." beyond the root, never an absolute path that a
 	// plain join would take outside the sandbox
@@ -320,16 +320,19 @@ func lenientDecode(file []byte) (*decoded, error) {
 	if err := json.Unmarshal(file, &m); err != nil {
 		return nil, err
 	}
-	d := &decoded{base: m.BaseCRL}
+	// The bytes of a decoded CRL are the bytes of the parsed DER element (RevocationList.Raw):
+	// ParseRevocationList tolerates data after the element, which is not part of the CRL.
+	d := &decoded{}
 	var err error
 	if d.baseL, err = x509.ParseRevocationList(m.BaseCRL); err != nil {
 		return nil, fmt.Errorf("base: %w", err)
 	}
+	d.base = d.baseL.Raw
 	if m.DeltaCRL != nil {
-		d.delta = m.DeltaCRL
 		if d.deltaL, err = x509.ParseRevocationList(m.DeltaCRL); err != nil {
 			return nil, fmt.Errorf("delta: %w", err)
 		}
+		d.delta = d.deltaL.Raw
 	}
 	return d, nil
 }
@@ -424,6 +427,9 @@ func strictDecode(file []byte) (malformed bool, reason string, d *decoded) {
 		l, err = x509.ParseRevocationList(der)
 		if err != nil {
 			return "malformed: not a CRL: " + err.Error(), nil, nil
+		}
+		if len(l.Raw) != len(der) {
+			return "ambiguous", nil, nil // data after the CRL element
 		}
 		return "ok", der, l
 	}
@@ -959,18 +965,18 @@ func buildSandbox(validEntry []byte) (env, error) {
 		return e, err
 	}
 	files := map[string][]byte{
-		"sentinel.txt":              validEntry,
-		"x":                         []byte("sentinel x 0\n"),
-		"b":                         []byte("sentinel b 0\n"),
-		"sentinel-dir/inner.txt":    []byte("inner\n"),
-		"r1/sentinel.txt":           []byte("sentinel r1\n"),
-		"r1/x":                      validEntry,
-		"r1/b":                      []byte("sentinel b 1\n"),
-		"r1/sentinel-dir/inner.txt": []byte("inner\n"),
-		"r1/r2/sentinel.txt":        validEntry,
-		"r1/r2/x":                   []byte("sentinel x 2\n"),
-		"r1/r2/b":                   []byte("sentinel b 2\n"),
-		"r1/r2/sentinel-dir/in.txt": []byte("inner\n"),
+		"sentinel.txt":               validEntry,
+		"x":                          []byte("sentinel x 0\n"),
+		"b":                          []byte("sentinel b 0\n"),
+		"sentinel-dir/inner.txt":     []byte("inner\n"),
+		"r1/sentinel.txt":            []byte("sentinel r1\n"),
+		"r1/x":                       validEntry,
+		"r1/b":                       []byte("sentinel b 1\n"),
+		"r1/sentinel-dir/inner.txt":  []byte("inner\n"),
+		"r1/r2/sentinel.txt":         validEntry,
+		"r1/r2/x":                    []byte("sentinel x 2\n"),
+		"r1/r2/b":                    []byte("sentinel b 2\n"),
+		"r1/r2/sentinel-dir/in.txt":  []byte("inner\n"),
 		"r1/r2/" + hexName(plainURL): validEntry, // the plain URL's file name, one level too high
 		"r1/r2/cache.txt":            []byte("next to the root\n"),
 	}
